@@ -99,6 +99,13 @@ def choose(w, rng):
     dumps - the library's IPC), then enabled groups by weight, biased towards further calls
     on objects that already live in the pool."""
     sw = w.swarm
+    if sw.get("mid") and rng.random() < 0.55:
+        # runs with trajectories of a few hundred particles concentrate on the entry points that
+        # can take them: the same routine on the larger and on the smaller system, again and again
+        from worlds.c18_base import MID_EXTRA
+        focus = sorted(i for i in MID_EXTRA if i in REG and not i.endswith(".init"))
+        if focus:
+            return REG[rng.choice(focus)]
     nfiles = len(w.files)
     if rng.random() < (0.6 if nfiles == 0 else 0.3 if nfiles < 3 else 0.08):
         return REG[rng.choice(SUPPORT)]
